@@ -10,6 +10,10 @@ d. dispatch exhaustiveness against the grammar: every `match pair.as_rule()` in 
    handles every rule the .pest grammar can put at that position (first child / any child of the parent rule, Pratt
    primaries = children of `expression` not registered as operators, Pratt operators = those registered with
    Op::prefix/postfix/infix); helper dispatchers called with the matched pair handle every rule of the calling arm
+f. sorted-overloads invariant: the alias function overloads are consumed as a list sorted by arity (min_arity = first,
+   max_arity = last, find_by_arity = binary search; `max - min + 1` is computed unchecked on the error path), so every
+   mutation of that list in AliasesMap::insert must keep it sorted (replace at the binary-search hit, insert at the
+   binary-search miss position)
 e. fixed-arity destructuring: `let [a, b, ..] = pair.into_inner().collect_array().unwrap()` inside the arm for rule X
    requires that X has exactly that many children in every derivation of the grammar
 """
@@ -54,6 +58,7 @@ def run(ctx):
     rule_c(ctx)
     rule_d(ctx)
     rule_e(ctx)
+    rule_f(ctx)
 
 
 def rule_b(ctx):
@@ -370,3 +375,64 @@ def rule_e(ctx):
                    f"destructures exactly {N} with collect_array().unwrap(): panics on the other shapes", where=c.where())
     ctx.info["collect_array_sites_not_decided"] = skipped
     ctx.anchor("C36.e", "collect_array destructurings tied to a grammar rule", n, 10)
+
+
+def rule_f(ctx):
+    F = ctx.F
+    D = "jj_lib::dsl_util::"
+    cons = {"min_arity": D + "AliasFunctionOverloads::<'a, V>::min_arity", "max_arity": D + "AliasFunctionOverloads::<'a, V>::max_arity",
+            "find_by_arity": D + "AliasFunctionOverloads::<'a, V>::find_by_arity"}
+    relies = []
+    for k, fid in cons.items():
+        b = F.body(fid)
+        if b is None:
+            continue
+        ctx.fn_seen(fid)
+        ns = {c.res or "" for c in b.calls if not c.cleanup} | {c.decl or "" for c in b.calls if not c.cleanup}
+        if k == "find_by_arity" and any(n.endswith("binary_search_by_key") or n.endswith("binary_search_by") for n in ns):
+            relies.append("find_by_arity: binary search")
+        if k == "min_arity" and any(n.endswith("Iterator::next") for n in ns) and not any(n.endswith("Iterator::min") for n in ns):
+            relies.append("min_arity: first element")
+        if k == "max_arity" and any(n.endswith("DoubleEndedIterator::next_back") or n.endswith("::last") for n in ns) and \
+                not any(n.endswith("Iterator::max") for n in ns):
+            relies.append("max_arity: last element")
+    ctx.info["overload_consumers_relying_on_sorted_order"] = relies
+    ins = F.body(D + "AliasesMap::<P, V>::insert")
+    if not ctx.anchor("C36.f", "AliasesMap::insert", [ins] if ins is not None else [], 1):
+        return
+    ctx.fn_seen(ins.id)
+    if not relies:
+        ctx.ob("C36.f/overloads-kept-sorted", ins.id, True, "no consumer relies on the order of the overload list")
+        return
+    sl = F.slicer(ins.id)
+    bad = []
+    n_mut = 0
+    for c in ins.calls:
+        if c.cleanup:
+            continue
+        n = c.res or c.decl or ""
+        m = re.search(r"^std::vec::Vec::<.*>::(push|insert|extend|append|extend_from_slice|swap|swap_remove|remove|retain|truncate|"
+                      r"dedup_by_key|sort|sort_by_key|sort_unstable_by_key|reverse|drain|splice)$", n)
+        is_idx = n in ("std::ops::IndexMut::index_mut",) or n.endswith("IndexMut<I>>::index_mut")
+        if not m and not is_idx:
+            continue
+        recv = sl.call_arg(c, 0)
+        if not any(name_matches(x[1], "re:Entry::<'a, K, V>::or_default$|HashMap::<.*>::entry$") for x in term_calls(recv)):
+            continue
+        n_mut += 1
+        kind = m.group(1) if m else "index_mut"
+        if kind in ("sort", "sort_by_key", "sort_unstable_by_key"):
+            continue
+        if kind in ("insert", "index_mut"):
+            pos = sl.call_arg(c, 1)
+            if any(name_matches(x[1], "re:binary_search_by_key$|binary_search_by$|partition_point$") for x in term_calls(pos)):
+                continue
+            bad.append(f"{kind} at a position not obtained from a binary search")
+        else:
+            bad.append(kind)
+    ctx.anchor("C36.f", "mutations of the overload list in AliasesMap::insert", n_mut, 1)
+    ctx.ob("C36.f/overloads-kept-sorted", ins.id, not bad,
+           f"overloads replaced/inserted only at the binary-search position ({'; '.join(relies)})" if not bad else
+           f"AliasesMap::insert changes the overload list with {sorted(set(bad))} although its consumers assume it is sorted by arity "
+           f"({'; '.join(relies)}): with overloads declared out of order, `max - min + 1` underflows / lookups miss -- a panic "
+           f"reachable from user-defined aliases")
